@@ -294,6 +294,8 @@ def blocks_to_bytes(
             # to produce the the right number of extended arguments
             # https://github.com/python/cpython/blob/b2e5794870eb4728ddfaafc0f79a40299576434f/Python/wordcode_helpers.h#L22-L44
             for i in reversed(range(n_args)):
+                # The extended args are on the same line as the instruction
+                line_mapping.offset_to_line[len(bytes_)] = instruction.line_number
                 bytes_.append(
                     dis.opmap[instruction.name] if i == 0 else dis.EXTENDED_ARG
                 )
